@@ -18,7 +18,7 @@ func init() { Register(c08{}) }
 func (c08) ID() string    { return "C08" }
 func (c08) Level() string { return "fault_enumeration" }
 func (c08) Rule() string {
-	return "workload = valid file from a seeded fault-free writer run (strings up to 300 bytes in half of the files, page size 1..50). Cases per file: fixed chunk size c for EVERY c in 1..(largest single read the reader requests on that file) [quick: every c <= 48 and a seeded sample above], seeded random fragmentations, random-small (1..3 bytes), len-1, one-byte-after-seek; each x eof_with_data {off,on} x source kind {ReadSeeker, ReadSeeker+ByteReader} (thorough: all four combinations per c; quick: one seeded combination per c). Non-trivial = at least one Read really returned fewer bytes than requested; distinct = distinct (file digest, policy, arg, eof flag, source kind)."
+	return "workload = valid file from a seeded fault-free writer run (strings up to 300 bytes in half of the files, page size 1..50). Cases per file: fixed chunk size c for EVERY c in 1..(largest single read the reader requests on that file) [quick: every c <= 48 and a seeded sample above; sizes above 512 and the 1-2% files of the large class (pages of 100..1200 records) are sampled in both tiers], seeded random fragmentations, random-small (1..3 bytes), len-1, one-byte-after-seek; each x eof_with_data {off,on} x source kind {ReadSeeker, ReadSeeker+ByteReader} (thorough: all four combinations per c; quick: one seeded combination per c). Non-trivial = at least one Read really returned fewer bytes than requested; distinct = distinct (file digest, policy, arg, eof flag, source kind)."
 }
 func (c08) Assumptions() []string {
 	return []string{
@@ -27,7 +27,7 @@ func (c08) Assumptions() []string {
 	}
 }
 func (c08) Probes() []string {
-	return []string{"policy/fixed", "policy/random", "policy/small", "policy/lenm1", "policy/onefull", "eof_with_data/fired", "kind/rsb", "kind/rs", "codec/gzip", "codec/snappy", "codec/uncompressed", "shortened/ge100perrun"}
+	return []string{"policy/fixed", "policy/random", "policy/small", "policy/lenm1", "policy/onefull", "eof_with_data/fired", "kind/rsb", "kind/rs", "codec/gzip", "codec/snappy", "codec/uncompressed", "shortened/ge100perrun", "class/large"}
 }
 func (c08) Runs(tier string) int {
 	if tier == "thorough" {
@@ -38,7 +38,12 @@ func (c08) Runs(tier string) int {
 
 func (p c08) Run(runseed uint64, tier string, acc *Acc) []*core.Violation {
 	r := core.NewRng(runseed)
-	f, ok := genFile(r, fileOpts(tier, 1, r.Chance(1, 2)))
+	fo := fileOpts(tier, 1, r.Chance(1, 2))
+	fo.LargePct = 1
+	if tier == "thorough" {
+		fo.LargePct = 2
+	}
+	f, ok := genFile(r, fo)
 	acc.Runs++
 	if !ok {
 		acc.Unusable++
@@ -69,8 +74,20 @@ func (p c08) Run(runseed uint64, tier string, acc *Acc) []*core.Violation {
 			frags = append(frags, fr)
 		}
 	}
+	if f.W.Large {
+		acc.Inc("class/large")
+	}
 	for c := 1; c <= maxReq; c++ {
-		if tier == "thorough" || c <= 48 || r.Chance(1, 10) {
+		switch {
+		case c > 512: // only large files request this much at once: seeded sample of about 64 sizes
+			if r.Intn(maxReq) < 64 {
+				addAll(core.Frag{Policy: "fixed", Arg: c})
+			}
+		case f.W.Large: // a large file costs ~30 ms per read: every c <= 16 and a sample
+			if c <= 16 || r.Chance(1, 16) {
+				addAll(core.Frag{Policy: "fixed", Arg: c})
+			}
+		case tier == "thorough" || c <= 48 || r.Chance(1, 10):
 			addAll(core.Frag{Policy: "fixed", Arg: c})
 		}
 	}
